@@ -220,7 +220,15 @@ class SymInt(Sym):
             return NotImplemented
         if not _intlike(o):
             return NotImplemented
-        return mkint(self.term + iterm(o))
+        w = None
+        if self.width is not None:
+            if isinstance(o, SymInt) and o.width is not None:
+                w = max(self.width, o.width) + 1
+            elif isinstance(o, int) and not isinstance(o, bool) and o >= 0:
+                w = max(self.width, o.bit_length()) + 1
+            elif isinstance(o, (bool, SymBool)):
+                w = self.width + 1
+        return mkint(self.term + iterm(o), w)
 
     __radd__ = __add__
 
